@@ -92,8 +92,7 @@ def cases(tier, seed):
         yield f"C10|wagner|k={k}", {"kind": "wagner", "k": k, "tier": tier}
     M = 4 if q else 5
     for m in range(1, M + 1):
-        for r in range(0, m):
-            yield f"C10|soft-rm|r={r},m={m}", {"kind": "soft-rm", "r": r, "m": m, "tier": tier}
+        yield f"C10|soft-rm|m={m}", {"kind": "soft-rm", "rs": list(range(0, m)) + list(range(m - 2, -1, -1)), "m": m, "tier": tier}
 
 
 def component_of(p):
@@ -378,14 +377,23 @@ def wagner_case(p, res):
 
 
 def softrm_case(p, res):
+    # all orders of one length in ONE process (ascending, then descending with fresh objects): decoder state shared between instances is exposed
+    for r in p["rs"]:
+        _softrm_one(r, p["m"], res)
+
+
+def _softrm_one(r, m, res):
     import torch
     from kaira.models.fec import decoders as D
     from kaira.models.fec import encoders as E
-    r, m = p["r"], p["m"]
     enc = E.ReedMullerCodeEncoder(r, m)
     cfg = f"r={r},m={m}"
     n, k = int(enc.code_length), int(enc.code_dimension)
-    dec = D.ReedMullerDecoder(enc, input_type="soft")
+    try:
+        dec = D.ReedMullerDecoder(enc, input_type="soft")
+    except Exception as e:  # noqa: BLE001
+        res.viol("soft-rm", cfg, "raises", f"constructor: {type(e).__name__}: {str(e)[:200]}")
+        return
     code = C.Code(enc)
     msgs = C.message_set(k, full_limit=11)
     cws, _ = code.encode_ints(msgs)
